@@ -37,7 +37,9 @@ var toolProfiles = []string{"core", "codeblocks", "stateful", "throwrecover", "f
 
 var spliceTokens = []string{"%{", "%{L}", "//{", "//{L} ", "{", "}", "\"", "'", "`", "[", "]", "\\p{", "\\pL", "\\x", "\\u00", "(", ")", "/", "&", "!", "#", "*", "+", "?", ":", "=", "<-", "←", ";", "\n", "//", "/*", "*/", "i",
 	"A", "Undefined", "func", "x:", "type:", "\x00", "\xff", "é", "\\400", "^", "-", ".",
-	"\\p{L]", "[\\p{Lu]]", "\\p{", "[\\pL", "\\u12", "\\U0011", "%{L", "//{L", "{ \"", "'\\", "`"}
+	"\\p{L]", "[\\p{Lu]]", "\\p{", "[\\pL", "\\u12", "\\U0011", "%{L", "//{L", "{ \"", "'\\", "`",
+	// code blocks at their smallest: nothing, one line break, only white space
+	"{}", "{\n}", " {\n} ", "&{\n}", "#{\n}", "{\n\n}", "{\r\n}", "{ }", "{;}"}
 
 func mutateText(t *rapid.T, b []byte) []byte {
 	n := 1 + gspec.U(t, 3, "nmut")
@@ -83,7 +85,8 @@ func drawGrammarText(t *rapid.T) ([]byte, string, *gspec.Grammar) {
 		}
 		return b, "bytes", nil
 	case k < 14:
-		return []byte(gspec.Pick(t, []string{"", "\n", "A", "A =", "A = ", "{", "{}", "{}\nA='a'", "A = 'a'", "A = B", "A = A", "A = 'a' A = 'b'", "A = %{x}", "A = 'a' //{x} 'b'", "=", "A 'x' = .", "A = [", "A = \"", "A = 'ab'", "A = []", "A = [^]", "A = ''", "A = [\\p{L]]", "A = [\\p{Greek]x]", "A = \"\\400\"", "A = 'a' {", "A = %{", "A = 'a' //{"}, "tiny")), "tiny", nil
+		return []byte(gspec.Pick(t, []string{"", "\n", "A", "A =", "A = ", "{", "{}", "{}\nA='a'", "A = 'a'", "A = B", "A = A", "A = 'a' A = 'b'", "A = %{x}", "A = 'a' //{x} 'b'", "=", "A 'x' = .", "A = [", "A = \"", "A = 'ab'", "A = []", "A = [^]", "A = ''", "A = [\\p{L]]", "A = [\\p{Greek]x]", "A = \"\\400\"", "A = 'a' {", "A = %{", "A = 'a' //{",
+			"A = 'a' {\n}", "A = 'a' {}", "A = &{\n} 'a'", "A = #{\n} 'a'", "{\n}\nA = 'a' {\n}", "A = 'a' {\n\n}", "A = 'a' { }"}, "tiny")), "tiny", nil
 	}
 	prof := gspec.Pick(t, toolProfiles, "profile")
 	g := gspec.GrammarGen(gspec.Profile(prof)).Draw(t, "grammar")
